@@ -16,6 +16,12 @@ VERIF = os.path.dirname(os.path.dirname(os.path.abspath(__file__)))
 EVIDENCE_DIR = os.path.join(VERIF, "evidence")
 REPLAY_DIR = os.path.join(VERIF, "replays")
 KNOWN = os.path.join(VERIF, "KNOWN_FINDINGS.json")
+if os.environ.get("VERIF_MUTANT"):
+    # runs against a patched copy of the repository (self-tests, seeded defects) must not touch the
+    # evidence and replays of the real tree
+    _m = os.path.join(os.environ.get("VERIF_SCRATCH", "/var/tmp"), "iauthd-verif", "mutant-out-%d" % os.getpid())
+    EVIDENCE_DIR = os.path.join(_m, "evidence")
+    REPLAY_DIR = os.path.join(_m, "replays")
 
 
 def load_known():
@@ -68,6 +74,8 @@ class Ctx:
     def cleanup(self):
         if self._scratch and not os.environ.get("VERIF_KEEP"):
             shutil.rmtree(self._scratch, ignore_errors=True)
+        if os.environ.get("VERIF_MUTANT") and not os.environ.get("VERIF_KEEP"):
+            shutil.rmtree(os.path.dirname(EVIDENCE_DIR), ignore_errors=True)
 
     # -- reporting -----------------------------------------------------------------
     def note(self, msg):
